@@ -64,8 +64,27 @@ def check(run):
     ff = m.find('flags_from_pkgconfig')
     kw = m.find('flags_from_pkgconfig.kwargs')
     # which helper feeds which key, from which stream
-    ret = [s for s in ast.walk(kw) if isinstance(s, ast.Return) and isinstance(s.value, ast.Dict)]
-    run.need(len(ret) == 1, 'kwargs() does not return one dict literal')
+    # every call builds its own dict of its own lists: merge_flags() keeps the lists of the first package in the result and extends them
+    # in place, so a dict handed out twice (memoised per name) would be extended with itself
+    rets_all = [s for s in ast.walk(kw) if isinstance(s, ast.Return) and m.enclosing_def(s) is kw]
+    dicts = [n for n in ast.walk(kw) if isinstance(n, ast.Dict) and len(n.keys) >= 6]
+    run.need(len(dicts) == 1, 'kwargs(): the dict of the six keyword lists not found')
+
+    def is_the_fresh_dict(v):
+        if v is dicts[0]:
+            return True
+        if isinstance(v, ast.Name):
+            defs = [st for st in ast.walk(kw) if isinstance(st, ast.Assign) and any(isinstance(t, ast.Name) and t.id == v.id for t in st.targets)]
+            return len(defs) == 1 and defs[0].value is dicts[0]
+        return False
+    fresh = bool(rets_all) and all(is_the_fresh_dict(r.value) for r in rets_all)
+    run.ob('Q4/each-package-gets-its-own-result-lists', 'flags_from_pkgconfig.kwargs', '; '.join('return %s' % u(r.value)[:50] for r in rets_all), fresh, m.where(kw),
+           'a result is handed out that is not the dict built by this call: merge_flags() stores the first package\'s lists in the result and extends them in place, '
+           'so a remembered dict is extended with what was accumulated so far when its name comes again ([a, b, a] repeats the flags of a and b)')
+
+    class _R:        # the rules below read the dict wherever it is written
+        value = dicts[0]
+    ret = [_R]
     streams = {}
     for s in ast.walk(kw):
         if isinstance(s, ast.Assign) and isinstance(s.value, ast.Call) and u(s.value.func) == 'call':
